@@ -2,11 +2,12 @@ HEADER = """C05 — Depth-first search finds a valid simple path iff one exists.
    Model: coq/model/Search.v (`descend` with post = false, entry points search_path / search_find with kind KDfs,
    any direction d: DOut (plain), DIn (transpose()), DAdj (undirected)). `accept` is an arbitrary pure filter;
    PureCb covers Method::Empty, ForEach(recorder) and Filter(pure f). Statements copied from `Check` of the lemmas."""
-REQUIRES = ["From Gdsl.Model Require Import Spec Callback.", "From Gdsl.Proofs Require Import Descend."]
+REQUIRES = ["From Gdsl.Model Require Import Spec Callback SearchFind.", "From Gdsl.Proofs Require Import Descend SearchFindProof."]
 PINS = [
  ("c05_path_sound", "dfs_path_sound", "a returned path starts at the root, ends at the node carrying the target key, consists of accepted stored edges joined end to start, and visits no node twice"),
  ("c05_path_complete", "dfs_path_complete", "None is returned only if no node with the target key is reachable through accepted edges"),
- ("c05_search_agrees", "dfs_find_agrees", "search() returns the target node exactly when search_path() returns a path (and that path ends there)"),
+ ("c05_search_agrees", "search_find'_agrees_dfs", "search() — the SEPARATELY transcribed find loops of the code (model/SearchFind.v: loop_*_find / recurse_*_find; for pfs `search_path().map(last_node)`) — returns the target node exactly when search_path() returns a path, and that node is where the path ends"),
+ ("c05_find_loops_simulate_path_loops", "find_machine_agrees", "for EVERY callback (no purity needed), heap, root, target and fuel: the find machine ends with the same verdict, the same heap, the same callback state (hence the same closure trace) and the same visited set as the path machine"),
  ("c05_terminates", "dfs_terminates", "with fuel >= fuel_bound the machines never run out of fuel: the out-of-fuel outcome excluded above cannot occur"),
  ("c05_no_panic", "dfs_no_panic", "backtracking never hits the unwrap() on an empty tree"),
 ]
